@@ -17,6 +17,7 @@ import (
 	"math/big"
 	"os"
 	"runtime"
+	"sort"
 	"strings"
 	"testing"
 	"testing/synctest"
@@ -42,6 +43,7 @@ type config struct {
 	Replicas int    `json:"replicas"`
 	Accounts int    `json:"accounts"`
 	PartSize int    `json:"part_size"`
+	Powers   []int64 `json:"validator_powers,omitempty"` // C14: several validators held by the harness
 }
 
 var runtimes = [][]byte{
@@ -67,6 +69,12 @@ func generate(seed uint64, prop string) simrt.Case {
 	r := simrt.NewRand(seed)
 	cfg := config{Seed: seed, Replicas: 3 + r.Intn(3), Accounts: 2 + r.Intn(3), PartSize: []int{256, 4096, 65536}[r.Intn(3)]}
 	nblocks := 3 + r.Intn(7)
+	if prop == "C14" {
+		nv := 1 + r.Intn(4)
+		for i := 0; i < nv; i++ {
+			cfg.Powers = append(cfg.Powers, []int64{1, 3, 3, 5, 10}[r.Intn(5)])
+		}
+	}
 	if prop == "C06" {
 		cfg.Replicas = 1
 		nblocks = 3 + r.Intn(3)
@@ -86,6 +94,10 @@ func generate(seed uint64, prop string) simrt.Case {
 				acts = append(acts, simrt.Action{K: "routines", N: rp, A: int64(1 + r.Intn(16))})
 			}
 		}
+		if prop == "C14" && b > 0 && r.Chance(1, 3) {
+			// a client replays an accepted request as a read-only contract query at one replica
+			acts = append(acts, simrt.Action{K: "adminquery", N: r.Intn(cfg.Replicas), A: int64(r.Intn(1 << 16))})
+		}
 		k := 0
 		if r.Chance(5, 6) {
 			k = 1 + r.Intn(10)
@@ -97,6 +109,9 @@ func generate(seed uint64, prop string) simrt.Case {
 				w = []int{6, 6, 8, 6, 4, 5, 5, 5, 6, 5, 4, 10, 4, 3, 2, 3}
 			}
 			kd := kinds[r.Pick(w)]
+			if prop == "C14" && r.Chance(1, 2) {
+				kd = "admin:" + adminVariants[r.Intn(len(adminVariants))]
+			}
 			acts = append(acts, simrt.Action{K: "tx", S: kd, N: r.Intn(cfg.Accounts), A: int64(r.Intn(1 << 16)), B: int64(r.Intn(220)), C: int64(ntx)})
 			ntx++
 		}
@@ -133,6 +148,7 @@ type txInfo struct {
 	kv         *rtypes.KV
 	wellFormed bool // decodes and signature recovers
 	kvOK       bool
+	admin      *adminReq
 }
 
 type world struct {
@@ -163,6 +179,13 @@ type world struct {
 	certainInvalid  []map[int]bool
 	refApp, refRcpt [][]byte
 	quietStart      bool
+	// C14
+	vkeys          []crypto.PrivKeyEd25519 // validator key pool (the genesis validators are among them)
+	valRef         map[string]int64        // reference validator set: address -> power
+	adminLog       []adminRec
+	pendingTargets map[string]bool
+	pendingRemoved int64
+	queried        map[int]bool // replicas at which an admin request was replayed as a query since the last block
 }
 
 func (w *world) viol(prop, oracle, key, f string, a ...interface{}) {
@@ -232,6 +255,14 @@ func (w *world) mkTx(a simrt.Action) *txInfo {
 	case "transfer", "create", "call", "kv", "precompile", "admin-direct", "admin-short":
 		w.next[acct.addr]++ // the following transactions of this account continue from here
 	}
+	var areq *adminReq
+	if strings.HasPrefix(a.S, "admin:") {
+		if areq = w.mkAdmin(strings.TrimPrefix(a.S, "admin:"), a, acct, nonce); areq == nil {
+			a.S = "transfer"
+			ti.kind = a.S
+		}
+		w.next[acct.addr]++
+	}
 	sign := func(tx *etypes.Transaction, key *ecdsa.PrivateKey) []byte {
 		stx, err := etypes.SignTx(tx, etypes.HomesteadSigner{}, key)
 		if err != nil {
@@ -243,6 +274,20 @@ func (w *world) mkTx(a simrt.Action) *txInfo {
 	const gas = 5000000
 	zero := big.NewInt(0)
 	ti.wellFormed = true
+	if areq != nil {
+		ti.admin = areq
+		ti.raw = sign(w.adminTx(areq, acct, nonce), acct.key)
+		ti.nonce = nonce
+		if at, ok, _ := w.refAuthorised(areq.cmd, areq.from, acct.addr, nonce); ok {
+			var pk crypto.PubKeyEd25519
+			copy(pk[:], at.PubKey)
+			w.pendingTargets[string(pk.Address())] = true
+			if at.Cmd == types.ValidatorCmdRemoveNode {
+				w.pendingRemoved += w.valRef[string(pk.Address())]
+			}
+		}
+		return ti
+	}
 	switch a.S {
 	case "transfer":
 		to := w.accts[int(a.A)%len(w.accts)].addr
@@ -366,13 +411,15 @@ func (w *world) buildBlock(txs []*txInfo) (*types.Block, *types.PartSet) {
 	} else {
 		commit = w.commits[h-2]
 	}
-	blk, _ := types.MakeBlock(h, fullnode.ChainID, raws, nil, commit, w.vaddr, st.LastBlockID, st.Validators.Hash(), st.AppHash, st.ReceiptsHash, w.cfg.PartSize)
+	proposer := w.vaddr
+	if !st.Validators.HasAddress(proposer) {
+		proposer = st.Validators.Validators[0].Address // the first genesis validator may have been removed (C14)
+	}
+	blk, _ := types.MakeBlock(h, fullnode.ChainID, raws, nil, commit, proposer, st.LastBlockID, st.Validators.Hash(), st.AppHash, st.ReceiptsHash, w.cfg.PartSize)
 	blk.Header.Time = w.start.Add(time.Duration(h) * time.Second)
 	parts := blk.MakePartSet(w.cfg.PartSize)
 	id := types.BlockID{Hash: blk.Hash(), PartsHeader: parts.Header()}
-	vote := &types.Vote{ValidatorAddress: w.vaddr, ValidatorIndex: 0, Height: h, Round: 0, Type: types.VoteTypePrecommit, BlockID: id}
-	vote.Signature = w.vkey.Sign(types.SignBytes(fullnode.ChainID, vote))
-	w.commits = append(w.commits, &types.Commit{BlockID: id, Precommits: []*types.Vote{vote}})
+	w.commits = append(w.commits, w.signCommit(st.Validators, h, id))
 	w.chain = append(w.chain, blk)
 	w.chainParts = append(w.chainParts, parts)
 	return blk, parts
@@ -475,9 +522,9 @@ func run(t *testing.T, prop string, c simrt.Case, out *simrt.Outcome, lg *simrt.
 	}
 	defer os.RemoveAll(base)
 	w.base, w.start = base, time.Now()
-	w.vkey = crypto.GenPrivKeyEd25519FromSecret([]byte(fmt.Sprintf("execsim-val-%d", cfg.Seed)))
-	w.vaddr = w.vkey.PubKey().Address()
-	gen := &types.GenesisDoc{GenesisTime: w.start, ChainID: fullnode.ChainID, Validators: []types.GenesisValidator{{PubKey: w.vkey.PubKey(), Amount: 10, Name: "v0"}}}
+	w.initValidators()
+	w.pendingTargets = map[string]bool{}
+	gen := &types.GenesisDoc{GenesisTime: w.start, ChainID: fullnode.ChainID, Validators: w.genesisValidators()}
 	w.env = &fullnode.Env{Reg: w.reg, Genesis: gen, BlockPartSize: cfg.PartSize, Plugins: "adminOp"}
 	for i := 0; i < cfg.Accounts; i++ {
 		h := sha256.Sum256([]byte(fmt.Sprintf("execsim-acct-%d-%d", cfg.Seed, i)))
@@ -521,6 +568,8 @@ func run(t *testing.T, prop string, c simrt.Case, out *simrt.Outcome, lg *simrt.
 			if a.N > 0 && a.N < len(w.reps) {
 				w.armed[a.N] = a.A
 			}
+		case "adminquery":
+			w.adminQuery(a)
 		case "enumerate":
 			w.enumerate(a.A, a.B)
 		case "routines":
@@ -561,6 +610,53 @@ func run(t *testing.T, prop string, c simrt.Case, out *simrt.Outcome, lg *simrt.
 					}
 				}
 			}
+			// ---- C14 reference: which of the requests carried by valid transactions are authorised
+			preVals := map[string]int64{}
+			for k, v := range w.valRef {
+				preVals[k] = v
+			}
+			var authorised []*types.ValidatorAttr
+			nreq := 0
+			{
+				nn := map[common.Address]uint64{}
+				for k, v := range pre {
+					nn[k] = v
+				}
+				for i, ti := range txs {
+					if !(verdicts[i].valid && verdicts[i].certain) {
+						continue
+					}
+					acct := w.accts[ti.sender%len(w.accts)]
+					txNonce := nn[acct.addr]
+					nn[acct.addr]++
+					if ti.admin == nil {
+						continue
+					}
+					nreq++
+					at, ok, why := w.refAuthorised(ti.admin.cmd, ti.admin.from, acct.addr, txNonce)
+					out.Probes["admin:"+ti.admin.variant]++
+					if ok {
+						authorised = append(authorised, at)
+						out.Probes["admin-authorised"]++
+					} else {
+						out.Probes["admin-refused:"+strings.TrimSpace(strings.Map(func(r rune) rune {
+							if r >= '0' && r <= '9' {
+								return -1
+							}
+							return r
+						}, why))]++
+					}
+					w.adminLog = append(w.adminLog, adminRec{cmd: ti.admin.cmd, sender: acct.addr, accepted: ok})
+					lg.Add("admin %s authorised=%v %s", ti.admin.variant, ok, why)
+					if os.Getenv("VERIF_DEBUG_SEED") != "" {
+						fmt.Printf("  block %d tx %d admin %s authorised=%v %s\n", h, i, ti.admin.variant, ok, why)
+					}
+				}
+			}
+			w.refApply(preVals, authorised)
+			w.pendingTargets, w.pendingRemoved = map[string]bool{}, 0
+			queried := w.queried
+			w.queried = nil
 			w.sent = append(w.sent, txs...)
 			drop := map[int]bool{}
 			for i := range txs {
@@ -614,6 +710,30 @@ func run(t *testing.T, prop string, c simrt.Case, out *simrt.Outcome, lg *simrt.
 					}
 				}
 				nd.Inc.Life.Disarm()
+			}
+			if len(out.Violations) > 0 {
+				break
+			}
+			// ---- C14: the validator set for the next height, on every replica, is the reference set
+			if prop == "C14" || nreq > 0 {
+				// replicas that were not queried first: a defect in request handling shows there
+				order := append([]*fullnode.Node{}, w.reps...)
+				sort.SliceStable(order, func(i, j int) bool { return !queried[order[i].ID] && queried[order[j].ID] })
+				for _, nd := range order {
+					out.Evals["C14.validator-set"]++
+					got := valsOf(nd.Inc.State.Validators)
+					if sameVals(got, w.valRef) {
+						continue
+					}
+					if queried[nd.ID] {
+						w.viol("C14", "query-changed-the-set", "query-replay", "after block %d replica %d has validators %s, the reference %s: an accepted request replayed as a read-only query at one replica took effect there", h, nd.ID, w.showVals(got), w.showVals(w.valRef))
+					} else if len(authorised) == 0 && sameVals(w.valRef, preVals) {
+						w.viol("C14", "unauthorised-request-changed-the-set", w.blame(txs, got), "after block %d (no authorised request in it) replica %d has validators %s, the set was %s", h, nd.ID, w.showVals(got), w.showVals(preVals))
+					} else {
+						w.viol("C14", "validator-set-differs-from-reference", w.blame(txs, got), "after block %d replica %d has validators %s; applying exactly the authorised requests gives %s (before the block %s)", h, nd.ID, w.showVals(got), w.showVals(w.valRef), w.showVals(preVals))
+					}
+					break
+				}
 			}
 			if len(out.Violations) > 0 {
 				break
